@@ -228,6 +228,9 @@ pub fn linear_registry() -> Vec<Lin> {
     lin!("LunarHour", y25 * 86400, hi_day * 86400 + 86399, 7200, None, |o: i64| { let h = time_of(o).get_lunar_hour(); let _ = (h.get_solar_time(), h.get_sixty_cycle_hour()); h }, |t: &tyme4rs::tyme::lunar::LunarHour| ord_time(&t.get_solar_time())),
     lin!("SixtyCycleYear", -1, 9999, 1, None, |o: i64| SixtyCycleYear::from_year(o as isize), |t: &SixtyCycleYear| t.get_year() as i64),
     lin!("SixtyCycleMonth", -12, 119999, 1, None, |o: i64| SixtyCycleMonth::from_index(o.div_euclid(12) as isize, o.rem_euclid(12) as isize), |t: &SixtyCycleMonth| t.get_sixty_cycle_year().get_year() as i64 * 12 + t.get_index_in_year() as i64),
+    // the same month objects handed out by a day view and by an instant view inside the month (15 days after its Jie day)
+    lin!("SixtyCycleMonth (handed out by a day view)", 30 * 12, 9990 * 12, 1, None, |o: i64| { let m = SixtyCycleMonth::from_index(o.div_euclid(12) as isize, o.rem_euclid(12) as isize); m.get_first_day().get_solar_day().next(15).get_sixty_cycle_day().get_sixty_cycle_month() }, |t: &SixtyCycleMonth| t.get_sixty_cycle_year().get_year() as i64 * 12 + t.get_index_in_year() as i64),
+    lin!("SixtyCycleMonth (handed out by an instant view)", 30 * 12, 9990 * 12, 1, None, |o: i64| { let m = SixtyCycleMonth::from_index(o.div_euclid(12) as isize, o.rem_euclid(12) as isize); let d = m.get_first_day().get_solar_day().next(15); SolarTime::from_ymd_hms(d.get_year(), d.get_month(), d.get_day(), 12, 0, 0).get_sixty_cycle_hour().get_sixty_cycle_day().get_sixty_cycle_month() }, |t: &SixtyCycleMonth| t.get_sixty_cycle_year().get_year() as i64 * 12 + t.get_index_in_year() as i64),
     lin!("SixtyCycleDay", y25, hi_day, 1, None, |o: i64| sd_idx(cal(), o as usize).get_sixty_cycle_day(), |t: &tyme4rs::tyme::sixtycycle::SixtyCycleDay| idx_of(&t.get_solar_day()).map(|i| i as i64).unwrap_or(i64::MIN)),
     lin!("SixtyCycleHour", y25 * 86400, hi_day * 86400 + 86399, 1, None, |o: i64| time_of(o).get_sixty_cycle_hour(), |t: &tyme4rs::tyme::sixtycycle::SixtyCycleHour| ord_time(&t.get_solar_time())),
     lin!("SolarWeek", 0, (NDAYS as i64 - 120) / 7 - 1, 1, None, |o: i64| sd_idx(cal(), (week_base() + 7 * o - JDN0) as usize).get_solar_week(1), |t: &tyme4rs::tyme::solar::SolarWeek| idx_of(&t.get_first_day()).map(|i| (cal().jdn(i) - week_base()).div_euclid(7)).unwrap_or(i64::MIN)),
